@@ -69,6 +69,8 @@ LeafNode(l) ==
     [] l = "appid" -> Nd("Txn", "u", <<>>, "ApplicationID", <<>>, <<>>)
     [] l = "nargs" -> Nd("Txn", "u", <<>>, "NumAppArgs", <<>>, <<>>)
     [] l = "gsize" -> Nd("Global", "u", <<>>, "GroupSize", <<>>, <<>>)
+    [] l = "idx1" -> Nd("Idx", "u", <<>>, "", <<>>, <<1>>)        \* ScratchVar.index() of variable 1 / 2
+    [] l = "idx2" -> Nd("Idx", "u", <<>>, "", <<>>, <<2>>)
 
 ResT(op) ==
   IF op \in {"itob", "concat", "substring3", "extract3", "setbyte", "b+", "b-", "b*", "b/", "b%", "b|", "b&",
